@@ -268,7 +268,7 @@ def check_reversal(rec, inp):
 
 
 CHECKS = {"where": check_where, "peaks": check_peaks, "transform": check_transform, "reversal": check_reversal,
-          "detector": lambda rec, inp: check_detector(rec, inp)["nt"]}
+          "detector": lambda rec, inp: check_detector(rec, inp)["nt"], "long": lambda rec, inp: check_long_series(rec, inp)}
 
 
 def admissible_mdi(b):
@@ -282,6 +282,46 @@ def admissible_mdi(b):
     return out
 
 
+def check_long_series(rec, inp):
+    """One LONG series (the statement has no length limit; anything done block-wise, cached by size or indexed with narrow integers only
+    shows beyond some tens of thousands of rows): every score of MovingWindow(CUSUM) against a vectorised evaluation of the definition,
+    and the reported changepoints against the runs of those scores.  inp: {"n", "b", "seed"}."""
+    from skchange.change_detectors import MovingWindow
+    from skchange.change_scores import CUSUM
+    n, b = int(inp["n"]), int(inp["b"])
+    rng = np.random.default_rng(int(inp["seed"]))
+    X = rng.normal(size=(n, 1))
+    X[n // 3:] += 3.0
+    X[n - 40 * b:] -= 4.0                      # a change close to the end of the series
+    det, err = O.attempt(lambda: MovingWindow(change_score=CUSUM(), bandwidth=b, threshold_scale=2.0).fit(X), seconds=60.0)
+    if err is None:
+        res, err = O.attempt(lambda: (np.asarray(det.transform_scores(X), dtype=float).reshape(-1), [int(c) for c in det.predict(X)["ilocs"]]), seconds=60.0)
+    if err is not None:
+        rec.violation("MovingWindow:long-series:raises", f"MovingWindow(CUSUM, bandwidth={b}) on n={n} raised {err!r}", "C08.detector", inp)
+        return True
+    got, cpts = res
+    S = np.concatenate(([0.0], np.cumsum(X[:, 0])))
+    t = np.arange(b, n - b + 1)
+    want = np.zeros(n)
+    want[t] = np.sqrt(b / 2.0) * np.abs((S[t] - S[t - b]) / b - (S[t + b] - S[t]) / b)
+    bad = np.flatnonzero(~np.isclose(got, want, rtol=1e-7, atol=1e-7))
+    if len(got) != n or len(bad):
+        k = int(bad[0]) if len(bad) else -1
+        rec.violation("moving_window_transform:score:long-series", f"MovingWindow(CUSUM, bandwidth={b}) on n={n}: {len(bad)} scores differ from the change score "
+                      f"between X[t-b:t] and X[t:t+b], first at t={k}: got {got[k] if k >= 0 else None!r}, definition {want[k] if k >= 0 else None!r}"
+                      if len(got) == n else f"{len(got)} scores for n={n}", "C08.score_def", inp)
+        return True
+    th = float(det.threshold_)
+    above = want > th
+    edges = np.flatnonzero(np.diff(np.concatenate(([0], above.astype(np.int8), [0]))))
+    runs = [(int(a), int(e)) for a, e in zip(edges[::2], edges[1::2])]
+    peaks = [a + int(np.argmax(want[a:e])) for a, e in runs]
+    if cpts != peaks:
+        rec.violation("MovingWindow:long-series:changepoints", f"MovingWindow(CUSUM, bandwidth={b}) on n={n}: reported {cpts[:8]}... ({len(cpts)}), the peaks of the "
+                      f"{len(runs)} runs above the threshold are {peaks[:8]}...", "C08.detector", inp)
+    return True
+
+
 def run(tier="quick", seed=0, repo="/repo"):
     use_repo(repo)
     rec = O.Rec(target=TARGET)
@@ -289,6 +329,10 @@ def run(tier="quick", seed=0, repo="/repo"):
     bound = {}
     try:
         _enumerate(rec, tier, seed, bound)
+        for n, b in ((70000, 20),) if tier == "quick" else ((70000, 20), (140000, 3)):
+            inp = {"check": "long", "n": n, "b": b, "seed": seed}
+            rec.case(("long", n, b), check_long_series(rec, inp), None)
+        bound["text"] = bound.get("text", "") + "; one long series (n = 70000, bandwidth 20, CUSUM) scored completely against the vectorised definition"
     except O.Abort:
         bound["text"] = bound.get("text", "") + " [enumeration stopped early: calls into the real code did not terminate]"
     kinds = {}
